@@ -599,6 +599,7 @@ func init() {
 	// non-ASCII letters): sign, verify, write, read back, compare every field, verify again. args: <exchange> <rs> <cert> <key> <certurl> <validityurl> <date> <expires> <chain> <verification time>
 	register("sxg.rt.sign", func(args []string) string {
 		e, rest := parseExchange(args)
+		original := append([]byte{}, e.Payload...)
 		rs, _ := strconv.Atoi(rest[0])
 		if rs > 0 {
 			if err := e.MiEncodePayload(rs); err != nil {
@@ -613,6 +614,9 @@ func init() {
 		at := parseTimeArg(rest[8])
 		fetcher := func(u string) ([]byte, error) { return chain, nil }
 		p1, ok1 := e.Verify(at, fetcher, log.New(ioutil.Discard, "", 0))
+		if ok1 && rs > 0 && !bytes.Equal(p1, original) {
+			return fmt.Sprintf("differs: verified-payload(%d bytes of %d)", len(p1), len(original))
+		}
 		var buf bytes.Buffer
 		if err := e.Write(&buf); err != nil {
 			return "refused write"
